@@ -393,8 +393,43 @@ def _resolve_name_table(mod, fn: ast.AST, expr: ast.AST):
     p_arg = params[1]
     comps = []
     memo_attrs = set()
+
+    def helper_comp(v):
+        """`self.M2(arg)` with M2 a method of the metadata whose only return is the comprehension: that comprehension over M's parameter"""
+        if not (isinstance(v, ast.Call) and isinstance(v.func, ast.Attribute) and isinstance(v.func.value, ast.Name) and v.func.value.id == params[0] and len(v.args) == 1 and not v.keywords
+                and isinstance(v.args[0], ast.Name) and v.args[0].id == p_arg and mod.has(f"ProtoClassMetadata.{v.func.attr}")):
+            return None
+        m2 = mod.func(f"ProtoClassMetadata.{v.func.attr}")
+        p2 = [a.arg for a in m2.args.args]
+        rets2 = [n.value for n in ast.walk(m2) if isinstance(n, ast.Return) and n.value is not None]
+        if len(p2) != 2 or len(rets2) != 1 or not isinstance(rets2[0], ast.DictComp):
+            return None
+
+        class Ren(ast.NodeTransformer):
+            def visit_Name(self, n):
+                if n.id == p2[1]:
+                    return ast.copy_location(ast.Name(p_arg, n.ctx), n)
+                if n.id == p2[0]:
+                    return ast.copy_location(ast.Name(params[0], n.ctx), n)
+                return n
+        return Ren().visit(copy.deepcopy(rets2[0]))
+
     for r in [n for n in ast.walk(m) if isinstance(n, ast.Return) and n.value is not None]:
         v = r.value
+        if isinstance(v, ast.Name):
+            # a local bound once to the table (possibly stored into the memo in the same statement)
+            binds = [a for a in ast.walk(m) if isinstance(a, ast.Assign) and any(isinstance(t, ast.Name) and t.id == v.id for t in a.targets)]
+            if len(binds) != 1:
+                return None
+            for t in binds[0].targets:
+                if isinstance(t, ast.Subscript) and isinstance(t.value, ast.Attribute) and isinstance(t.slice, ast.Name) and t.slice.id == p_arg:
+                    memo_attrs.add(t.value.attr)
+                elif not isinstance(t, ast.Name):
+                    return None
+            v = binds[0].value
+        hc = helper_comp(v)
+        if hc is not None:
+            v = hc
         if isinstance(v, ast.DictComp) and len(v.generators) == 1 and not v.generators[0].ifs and isinstance(v.generators[0].target, ast.Name) \
                 and isinstance(v.key, ast.Name) and v.key.id == v.generators[0].target.id and "meta_by_field_name" in ast.unparse(v.generators[0].iter):
             comps.append(v)
@@ -403,7 +438,7 @@ def _resolve_name_table(mod, fn: ast.AST, expr: ast.AST):
             memo_attrs.add(v.value.attr)
         else:
             return None
-    if len(comps) != 1:
+    if not comps:
         return None
     # a memo is fine when everything stored in it is M(<its key>)
     init = mod.func("ProtoClassMetadata.__init__")
@@ -431,6 +466,14 @@ def _resolve_name_table(mod, fn: ast.AST, expr: ast.AST):
                 if not (isinstance(src, ast.Call) and isinstance(src.func, ast.Attribute) and src.func.attr == call.func.attr and len(src.args) == 1
                         and k is not None and ast.unparse(src.args[0]) == ast.unparse(k)):
                     return None
+    if len({ast.unparse(c_.value) + "|" + ast.unparse(c_.generators[0].iter) for c_ in comps}) > 1:
+        return None
+    for n in ast.walk(m):
+        if isinstance(n, ast.Assign):
+            for t in n.targets:
+                if isinstance(t, ast.Subscript) and isinstance(t.value, ast.Attribute) and t.value.attr in memo_attrs:
+                    if not (isinstance(t.slice, ast.Name) and t.slice.id == p_arg and (isinstance(n.value, ast.DictComp) or helper_comp(n.value) is not None)):
+                        return None
     comp = comps[0]
     gen_var = comp.generators[0].target.id
 
